@@ -1,7 +1,7 @@
 (* C03 -- GC never changes what any key reads (no loss, no resurrection).
    Property theorems only; proofs live in proofs/GcView.v. *)
 From Coq Require Import NArith ZArith List Bool String.
-From GB Require Import Consts Words Hash Compress Bucket BucketOpen Gc CheckL2 RefMap Refine Restart2 Restart4 GcView.
+From GB Require Import Consts Words Hash Compress Bucket BucketOpen Gc CheckL2 RefMap Refine Restart2 Restart4 GcView GcMerge.
 Import ListNotations.
 Open Scope N_scope.
 
@@ -37,6 +37,28 @@ Theorem C03_any_number_of_passes : forall (cf : cfg) (hf : bytes -> N) (K : list
   Rel hf K (gc_passes cf hf b ranges) m /\ GPre cf hf K (gc_passes cf hf b ranges) /\ b_head (gc_passes cf hf b ranges) = b_head b.
 Proof. exact gc_passes_view. Qed.
 Print Assumptions C03_any_number_of_passes.
+
+(* (2c) WITH OR WITHOUT HINT MERGE: on a key set without hash collisions the merge that a pass with merge = true runs
+   first (rotate + dump every hint buffer, k-way merge of all hint files, collision detection) finds no collision, so
+   the collision table stays empty and data files and tree are untouched; the pass then is the pass without merge
+   (gc_pass_merge_eq).  Hence for EITHER flag the pass preserves the relation, the precondition and the head file,
+   and so does any sequence of passes with any flags. *)
+Theorem C03_gc_preserves_reads_any_merge : forall (cf : cfg) (hf : bytes -> N) (K : list bytes),
+  (forall k1 k2, In k1 K -> In k2 K -> hf k1 = hf k2 -> k1 = k2) -> 0 < c_splitcap cf ->
+  forall b m begin_ end_ merge,
+  Rel hf K b m -> GPre cf hf K b -> (begin_ <= end_ < b_head b)%nat ->
+  let b' := fst (gc_pass cf hf b begin_ end_ merge) in
+  Rel hf K b' m /\ GPre cf hf K b' /\ b_head b' = b_head b.
+Proof. exact gc_pass_view_any. Qed.
+Print Assumptions C03_gc_preserves_reads_any_merge.
+
+Theorem C03_any_passes_any_merge : forall (cf : cfg) (hf : bytes -> N) (K : list bytes),
+  (forall k1 k2, In k1 K -> In k2 K -> hf k1 = hf k2 -> k1 = k2) -> 0 < c_splitcap cf ->
+  forall ranges b m,
+  Rel hf K b m -> GPre cf hf K b -> Forall (fun r => (fst (fst r) <= snd (fst r) < b_head b)%nat) ranges ->
+  Rel hf K (gc_passes_m cf hf b ranges) m /\ GPre cf hf K (gc_passes_m cf hf b ranges) /\ b_head (gc_passes_m cf hf b ranges) = b_head b.
+Proof. exact gc_passes_view_any. Qed.
+Print Assumptions C03_any_passes_any_merge.
 
 (* (3) and life goes on: a GC pass followed by ANY history of client operations answers exactly as the
    reference map does, the pass itself being invisible *)
